@@ -38,6 +38,7 @@ func runC09(run *Run, replay string) {
 	if run.Thorough {
 		n = 3000
 	}
+	valueTargetWitness(run)
 	for i := 0; i < n; i++ {
 		r := rand.New(rand.NewSource(subSeed(run.Res.Seed, i)))
 		var sc *Scenario
@@ -49,6 +50,7 @@ func runC09(run *Run, replay string) {
 			sc, cfg = tfScenario(r)
 		}
 		blockAddrCases(run, blockAddrScenario(r), 12)
+		valueTargetCases(run, r, 12)
 		d, _ := sc.W.Dec.Path(sc.Main.Path)
 		res := safeCall("CollectReferenceTargets", func() (interface{}, error) { return d.CollectReferenceTargets() })
 		run.Res.Evaluations++
